@@ -41,7 +41,7 @@ class C18(PureCheck):
     module = "QueryTrace"
     rule = ("(a) get_cursor_position on a scripted in_stream: reports with row/col in {1,9,10,123,65535} in 7-bit and 8-bit "
             "CSI form, preceded by every string of length <=4 over {x, ESC, [, 1, ;, R, newline} that contains no complete "
-            "report (quick: all <=3 + sampled 4), plus non-ASCII characters ahead of the report on utf-8 and latin-1 streams, followed by trailing input, with 0..3 OSError faults at chosen read attempts, "
+            "report (quick: all <=3 + sampled 4), plus long bursts (40..1000 characters) and non-ASCII characters ahead of the report on utf-8 and latin-1 streams, followed by trailing input, with 0..3 OSError faults at chosen read attempts, "
             "with and without extra_bytes_callback; (b) get_cursor_vertical_diff with top_usable_row in -1..4, last cursor row "
             "None/0..4, 1..3 successive reported rows 0..5 and a nested call injected during the first or second query. "
             "distinct_nontrivial = distinct cases with non-empty extra, a fault, or a non-zero movement")
@@ -85,6 +85,16 @@ class C18(PureCheck):
                     k += 1
                     yield {"op": "query", "extra": enc.enc_text(ex), "row": vals[k % 5], "col": vals[(k // 2) % 5], "csi8": csi8,
                            "trailing": enc.enc_text(trailings[k % 4]), "faults": [], "cb": 1, "enc": encname}
+        # a long burst of input ahead of the report (a paste arriving while the query is outstanding)
+        for n in (40, 50, 56, 57, 58, 63, 64, 65, 100, 200, 1000):
+            for csi8 in (0, 1):
+                k += 1
+                alpha = "xyzw\x1b[1;R\n"
+                ex = "".join(alpha[(j * 7 + n) % len(alpha)] for j in range(n))
+                if REPORT_RE.search(ex):
+                    ex = ex.replace("R", "q")
+                yield {"op": "query", "extra": enc.enc_text(ex), "row": vals[k % 5], "col": vals[(k // 2) % 5], "csi8": csi8,
+                       "trailing": enc.enc_text(trailings[k % 4]), "faults": [2] if n == 64 else [], "cb": 1}
         rowsets = [[a] for a in range(6)] + [[a, b] for a in range(6) for b in range(6)] + \
                   [[a, b, c] for a in (0, 2, 5) for b in (1, 5) for c in (0, 3)]
         for top0 in range(-1, 5):
